@@ -68,6 +68,7 @@ def harnesses(tier):
     for gz in (0, 1):
         hs.append({"id": "run/bare/%s" % ("bgzf" if gz else "text"), "params": {"kind": "run", "form": "bare", "gz": gz, "walks": ["chr1", "chr1"]},
                    "timeout": 900})
+    hs.append({"id": "run/twice-different-graphs", "params": {"kind": "twice"}, "timeout": 900})
     hs.append({"id": "run/empty", "params": {"kind": "run", "form": "unstable", "gz": 0, "walks": []}, "timeout": 120})
     return hs
 
@@ -129,6 +130,32 @@ def build(params):
             return None
 
         return Harness(args, pre, case, fuel=50)
+    if params["kind"] == "twice":
+        # two gaftools index runs in ONE process on different graphs that share a contig name: nothing may carry over
+        LAY2 = {"s0": ("chr1", 0, 15, 0), "s1": ("chr1", 15, 10, 0), "s2": ("chr1", 25, 5, 0), "a0": ("hapA", 100, 4, 1), "a1": ("hapA", 110, 10, 1),
+                "b0": ("hapB", 7, 2, 2)}
+
+        def case2(ps, pe, c0, c1, d0, d1):
+            saved = dict(F.LAY)
+            try:
+                recs = F.records_for("bare", ["chr1"], [(ps, pe)])
+                idx, lines = F.run_index(recs, [c0, c1])
+                r = F.check_index(idx, recs, [c0, c1])
+                if r:
+                    return "first run: " + r
+                F.LAY.clear()
+                F.LAY.update(LAY2)
+                idx2, lines2 = F.run_index(recs, [d0, d1])
+                r = F.check_index(idx2, recs, [d0, d1])
+                if r:
+                    return "second run in the same process, other graph: " + r
+                return None
+            finally:
+                F.LAY.clear()
+                F.LAY.update(saved)
+
+        return Harness([("ps", "int"), ("pe", "int"), ("c0", "int"), ("c1", "int"), ("d0", "int"), ("d1", "int")],
+                       ["0 <= ps < pe <= 30 and 0 <= c0 < c1 and 0 <= d0 < d1"], case2, fuel=40)
     walks = params["walks"]
     n = len(walks)
     form = params["form"]
@@ -189,6 +216,32 @@ def replay(params, model, wd):
         bad = sorted(set(got)) != sorted(want)
         return {"reproduced": bad, "key": "C03:convert_coord:" + ("missing" if set(want) - set(got) else "extra"),
                 "what": "convert_coord(%r) over %r returned %r, overlapping segments %r" % (fields, {k: list(v) for k, v in segs.items()}, got, want), "level": "unit"}
+    if params["kind"] == "twice":
+        LAY2 = {"s0": ("chr1", 0, 15, 0), "s1": ("chr1", 15, 10, 0), "s2": ("chr1", 25, 5, 0), "a0": ("hapA", 100, 4, 1), "a1": ("hapA", 110, 10, 1),
+                "b0": ("hapB", 7, 2, 2)}
+        ps, pe = a[0], a[1]
+        saved = dict(F.LAY)
+        try:
+            recs = F.records_for("bare", ["chr1"], [(ps, pe)])
+            for k, lay in enumerate((saved, LAY2)):
+                F.LAY.clear()
+                F.LAY.update(lay)
+                d = os.path.join(wd, "run%d" % k)
+                os.makedirs(d)
+                gfa, gaf, lines = F.write_real(d, recs)
+                out = os.path.join(d, "x.gvi")
+                try:
+                    I.run(gaf, gfa, output=out)
+                except BaseException as e:  # noqa
+                    return {"reproduced": True, "key": "C03:twice:exception", "what": "index run %d raised %r" % (k + 1, e)}
+                r = F.check_index(pickle.load(open(out, "rb")), recs, F.real_offsets(gaf))
+                if r:
+                    return {"reproduced": True, "key": "C03:twice:run%d" % (k + 1), "what": "run %d of gaftools index in one process (graph cut %s): %s" % (
+                        k + 1, "differently" if k else "as first", r)}
+            return {"reproduced": False, "detail": "both runs index correctly"}
+        finally:
+            F.LAY.clear()
+            F.LAY.update(saved)
     walks = params["walks"]
     n = len(walks)
     nums = [(a[2 * i], a[2 * i + 1]) for i in range(n)]
